@@ -23,12 +23,16 @@ def run(ck):
     r = ck.tlc("BiPipe", cfg_text("MC_BiPipe.cfg", th), timeout=900)
     ck.exhaustive = r.finished
     ck.tlc("BiPipe", cfg_text("MC_BiPipe_fullclose.cfg", th), timeout=900)
-    twins = (("oneclose", None), ("noclose_on_err", None), ("nocompletion", None))
-    for variant, _ in (twins if th else twins[:1]):
-        t = ck.tlc("BiPipe", "MC_BiPipe.cfg", constants={"Variant": '"%s"' % variant}, allow_error=True, count=False)
-        if not t.error or t.error["kind"] not in ("invariant", "temporal"):
+    live = cfg_text("MC_BiPipe_live.cfg", False)
+    ck.tlc("BiPipe", live.replace("Errors = FALSE", "Errors = TRUE") if th else live, timeout=900, workers=4)
+    # the properties are not vacuous: each broken twin of the model must be rejected by TLC
+    twins = (("oneclose", "MC_BiPipe_live.cfg", "temporal"), ("noclose_on_err", "MC_BiPipe.cfg", "invariant"),
+             ("nocompletion", "MC_BiPipe.cfg", "invariant"))
+    for variant, cfg, kind in (twins if th else twins[:1]):
+        t = ck.tlc("BiPipe", cfg, constants={"Variant": '"%s"' % variant}, allow_error=True, count=False, workers=4)
+        if not t.error or t.error["kind"] != kind:
             raise vf.Infra("BiPipe twin %s was not rejected (vacuous properties?)" % variant)
-    lead = ck.tlc("BiPipe", "MC_BiPipe_fullclose_e2e.cfg", allow_error=True, count=False)
+    lead = ck.tlc("BiPipe", "MC_BiPipe_fullclose_e2e.cfg", allow_error=True, count=False, workers=4)
     if lead.error:
         ck.notes.append("model lead: with full-close streams (writes to a stream whose application closed fail) InvEndToEnd is violated: "
                         "the failing write of the opposite direction closes both streams while bytes of the side that finished first "
